@@ -73,3 +73,17 @@ func H_C06_div() {
 	vAssert("C06.div.words", vAnd(wordsOK(q), wordsOK(r)))
 	vReach("end")
 }
+
+// H_C06_thresh: the product does not depend on the Karatsuba threshold.
+func H_C06_thresh() {
+	x := vNat("x", vCfg("m"), true)
+	y := vNat("y", vCfg("n"), true)
+	decKaratsubaThreshold = 30
+	var z1, z2 dec
+	z1 = z1.mul(x, y)
+	decKaratsubaThreshold = 2
+	z2 = z2.mul(x, y)
+	vAssert("C06.threshold", sEq(sFromWords(z1), sFromWords(z2)))
+	vAssert("C06.threshold.len", len(z1) == len(z2))
+	vReach("end")
+}
